@@ -113,22 +113,22 @@ checks["C08"] = {"level": "model_checking",
  "bounds_thorough": "0/3/4 pairs, all device variants",
  "assumptions": VAM_ASSUME + ["caller obligations: flush/invalidate only while the allocation is mapped, balanced Map/Unmap, offset >= 0"], "outside": VAM_OUT + "; bind offsets chosen by the caller; image binds"}
 checks["C09"] = {"level": "model_checking",
- "jobs": [vjob("Verif_C09_Pages", [0, 1, 2, 3, 8, 9], [0, 1, 2, 3, 4, 5, 8, 9])],
- "bounds_quick": "vam's real granularity handler under the real TLSF and linear metadata (wired as deviceMemoryBlock.Init does): granularity 16 on a 256-byte block (3 operations TLSF / 2 linear) and granularity 1024 on a 2048-byte block (2 operations); sizes symbolic up to block+page, alignment 2^0..2*granularity, kinds one representative per conflict class (unknown, buffer, optimal image), lower and upper requests for linear; after every call no two live allocations of conflicting kinds share a page (conflict relation written from the property text); page-boundary recipe on a 1024-byte block with granularity 512: three buffers tile the block (symbolic sizes), the middle one is freed, then one operation",
+ "jobs": [vjob("Verif_C09_Pages", [0, 1, 2, 3, 8, 9, 13], [0, 1, 2, 3, 4, 5, 8, 9, 13])],
+ "bounds_quick": "vam's real granularity handler under the real TLSF and linear metadata (wired as deviceMemoryBlock.Init does): granularity 16 on a 256-byte block (3 operations TLSF / 2 linear; linear additionally the double-stack script: lower request, upper request, one arbitrary operation) and granularity 1024 on a 2048-byte block (2 operations); sizes symbolic up to block+page, alignment 2^0..2*granularity, kinds one representative per conflict class (unknown, buffer, optimal image), lower and upper requests for linear; after every call no two live allocations of conflicting kinds share a page (conflict relation written from the property text); page-boundary recipe on a 1024-byte block with granularity 512: three buffers tile the block (symbolic sizes), the middle one is freed, then one operation",
  "bounds_thorough": "one more operation, all five kinds, granularity 4096",
  "assumptions": ["default build"], "outside": "more operations; other granularities; defragmentation (the vam defragmentation harness keeps kinds unknown)"}
 checks["C10"] = {"level": "fault_enumeration",
- "jobs": [vjob("Verif_C10_Faults", [0, 32, 64, 96, 128, 160, 192, 224], [0, 32, 64, 96, 128, 160, 192, 224, 2, 34, 98], deep=[0, 224])],
- "bounds_quick": "a fault-free history of 1 call, then one operation under fault injection: every fallible driver call (AllocateMemory, MapMemory, CreateBuffer, BindBufferMemory) asks a symbolic Boolean whether to fail (at most 1 fault; 2 for the multi-step operations), so every position first/k-th/last is covered by the solver. Operations: single block allocation, persistently mapped allocation, dedicated allocation, multi-allocation of 3, mapped dedicated multi-allocation of 3, pool creation with 2 minimum blocks, CreateBuffer, Map after 0..3 map/unmap pairs (covers the call on which the mapping hysteresis flips). On failure: error not panic, caller Allocations unallocated and reusable (a fault-free allocation into them is accepted), every live device object owned by a block list or a live dedicated allocation, empty spare blocks within max(minBlockCount,1), existing allocations untouched, C02 and C04 equalities, no invalid driver call",
+ "jobs": [vjob("Verif_C10_Faults", [0, 32, 64, 96, 128, 160, 192, 224, 4, 132], [0, 32, 64, 96, 128, 160, 192, 224, 2, 34, 98, 4, 132, 36], deep=[0, 224])],
+ "bounds_quick": "a fault-free history of 1 call, then one operation under fault injection: every fallible driver call (AllocateMemory, MapMemory, CreateBuffer, BindBufferMemory) asks a symbolic Boolean whether to fail (at most 1 fault; 2 for the multi-step operations), so every position first/k-th/last is covered by the solver. The single block allocation and the dedicated multi-allocation are also run on the device variant with heap size limits {512,1024} (there a retry may be refused for lack of room; budget equalities are still required). Operations: single block allocation, persistently mapped allocation, dedicated allocation, multi-allocation of 3, mapped dedicated multi-allocation of 3, pool creation with 2 minimum blocks, CreateBuffer, Map after 0..3 map/unmap pairs (covers the call on which the mapping hysteresis flips). On failure: error not panic, caller Allocations unallocated and reusable (a fault-free allocation into them is accepted), every live device object owned by a block list or a live dedicated allocation, empty spare blocks within max(minBlockCount,1), existing allocations untouched, C02 and C04 equalities, no invalid driver call",
  "bounds_thorough": "history of 2 calls, 2 faults everywhere, atom-64 variant",
  "assumptions": VAM_ASSUME + ["fault kinds: VK_ERROR_OUT_OF_DEVICE_MEMORY for allocate/bind, VK_ERROR_MEMORY_MAP_FAILED for map, VK_ERROR_OUT_OF_HOST_MEMORY for create"], "outside": VAM_OUT + "; faults in GetMemoryRequirements2 / image paths"}
 checks["C11"] = {"level": "model_checking",
- "jobs": [vjob("Verif_C11_Hist", [4, 8, 36], [4, 8, 12, 36]), vjob("Verif_C11_OverBudget", [0], [0, 4]), vjob("Verif_C11_Race", [0], [0])],
- "bounds_quick": VAM_HIST + " on devices with heap size limits {512,1024}, maxMemoryAllocationCount 2, and custom pools (min/max block counts); after every call: device bytes per heap <= limit, live memory objects <= count limit, pool block counts within [min,max], no AllocateMemory driver call during a never-allocate request, a dedicated request owns an object of exactly the requested size; two goroutines racing for the last bytes of a heap limit (all schedules with at most 2 pre-emptions)",
+ "jobs": [vjob("Verif_C11_Hist", [4, 8, 36], [4, 8, 12, 36]), vjob("Verif_C11_OverBudget", [0], [0, 4]), vjob("Verif_C11_Race", [0], [0]), vjob("Verif_C11_FaultCount", [8, 12], [8, 12, 4])],
+ "bounds_quick": VAM_HIST + " on devices with heap size limits {512,1024}, maxMemoryAllocationCount 2, and custom pools (min/max block counts); after every call: device bytes per heap <= limit, live memory objects <= count limit, pool block counts within [min,max], no AllocateMemory driver call during a never-allocate request, a dedicated request owns an object of exactly the requested size; two goroutines racing for the last bytes of a heap limit (all schedules with at most 2 pre-emptions); limits after driver failures: 4 steps of dedicated allocation (every vkAllocateMemory may fail, at most 2 faults) or free on the variants with maxMemoryAllocationCount 2 and heap limits",
  "bounds_thorough": "4 calls, multi-allocations",
  "assumptions": VAM_ASSUME, "outside": VAM_OUT + "; the race clause is covered only in the reduced form of C12's schedule exploration: two goroutines, two dedicated requests of symbolic size racing for a 512-byte heap limit, at most two pre-emptions"}
-checks["C13"]["jobs"] += [vjob("Verif_C13_Hist", [0, 96], [0, 32, 96])]
-checks["C13"]["bounds_quick"] += " Allocator level: " + VAM_HIST + " with every call inside a panic catcher; refusals compared with a snapshot of device objects, live allocations and counters; CreatePool with every memory type index in [-2,40]."
+checks["C13"]["jobs"] += [vjob("Verif_C13_Hist", [0, 96], [0, 32, 96]), vjob("Verif_C09_Pages", [13], [1, 13])]
+checks["C13"]["bounds_quick"] += " Allocator level: " + VAM_HIST + " with every call inside a panic catcher; refusals compared with a snapshot of device objects, live allocations and counters; CreatePool with every memory type index in [-2,40]. Block level with granularity rules in force: the page harness of C09 (linear algorithm, double-stack script: lower request, upper request, one arbitrary operation; granularity 16, real granularity handler) with every request, commit and free inside a panic catcher."
 checks["C13"]["assumptions"] = checks["C13"]["assumptions"] + VAM_ASSUME
 checks["C14"] = {"level": "model_checking",
  "jobs": [vjob("Verif_C14_Maps", [2, 34, 256], [2, 34, 0, 32, 256, 288], deep=[2, 34]), vjob("Verif_C14_VDefrag", [0, 128], [0, 32, 128, 160])],
@@ -161,7 +161,7 @@ LEGEND = {
  "Linear": "linear cfg: 0 empty 100-byte block, 1 empty 128-byte block, 2 ring buffer L3(3,j,m), 3 double stack L2(2,2), 4 stack L1(4) with freed middle entries, 5/6 compaction family with/without an upper stack, 7 small ring L3(2,1,2), 8 ring L3(2,1,3) with one symbolic size",
  "TLSF": "TLSF cfg = 10*scenario + block: block 0/1/2/3 = 256/320/1000/4096 bytes; scenario 0 history from the empty block, 1 recipe T(n,F,pi), 2 three holes in one free list, 3 one hole at an unaligned offset (C05 search: 0/1 recipes T(3)/T(2), 2 bucket-boundary recipe, 3 its light variant, 4 merge recipe)",
  "Defrag": "planner cfg = algorithm (0 Fast, 1 Full) + 2*layout (0: one block, 1: two blocks, 2: three blocks) + 6*(symbolic per-pass limits)",
- "vam": "vam cfg: low 5 bits = device variant (1 granularity 1024, 2 nonCoherentAtomSize 64, 4 heap size limits, 8 maxMemoryAllocationCount 2, 16 excluded AMD device-coherent type); higher bits select the scenario of the entry (Hist: 32 custom pools, 64 multi-allocations, 96 pool index sweep; Faults: cfg/32 = operation 0..7; Maps: 32 non-coherent type, 64 flush focus, 128 odd-sized pool block, 256 hysteresis window-phase sweep; VDefrag: 32 Fast instead of Full algorithm, 64 five allocations, 128 mapped-neighbour layout, 192 pool with MinAllocationAlignment 32; Pages: cfg%2 linear, cfg/2%3 granularity 16/1024/4096, 6+ page-boundary recipe; Select: N=3+cfg%4 types, 4 integrated GPU, 8 AMD extension)",
+ "vam": "vam cfg: low 5 bits = device variant (1 granularity 1024, 2 nonCoherentAtomSize 64, 4 heap size limits, 8 maxMemoryAllocationCount 2, 16 excluded AMD device-coherent type); higher bits select the scenario of the entry (Hist: 32 custom pools, 64 multi-allocations, 96 pool index sweep; Faults: cfg/32 = operation 0..7; Maps: 32 non-coherent type, 64 flush focus, 128 odd-sized pool block, 256 hysteresis window-phase sweep; VDefrag: 32 Fast instead of Full algorithm, 64 five allocations, 128 mapped-neighbour layout, 192 pool with MinAllocationAlignment 32; Pages: cfg%2 linear, cfg/2%3 granularity 16/1024/4096, 6+ page-boundary recipe, 12+ double-stack script (lower request, upper request, one arbitrary operation); Select: N=3+cfg%4 types, 4 integrated GPU, 8 AMD extension)",
 }
 def legend_for(entry):
     if "Linear" in entry: return "Linear"
